@@ -11,7 +11,7 @@
                     property is violated by the code: null_timespan_bound_refuted) *)
 From Coq Require Import ZArith List Bool String Lia.
 From V Require Import Base.Tri Gen.TimespanGen Model.Pred Gen.PredGen Model.Expr Model.SqlExpr
-  Proofs.ExprProofsA Proofs.ExprProofsB Proofs.ExprProofsC.
+  Model.ExprLegacy Proofs.ExprProofsA Proofs.ExprProofsB Proofs.ExprProofsC Proofs.ExprProofsL Proofs.ExprProofsM.
 Import ListNotations.
 Open Scope Z_scope.
 
@@ -193,6 +193,120 @@ Theorem time_in_refuted :
 Proof. exact time_in_refuted_p. Qed.
 Print Assumptions time_in_refuted.
 
+(* ---- `.begin` / `.end`: bounds_ok is EXACTLY the guard.  For every well-typed column expression and every row the SQL
+   value equals the documented value if and only if no `.begin` / `.end` in it is applied to a NULL timespan ... *)
+Theorem scalar_correct_iff : forall rho e t,
+  typeof e = Some t -> t <> DBool -> env_ok rho e = true ->
+  (seval rho (sc e) = dval rho e <-> bounds_ok rho e = true).
+Proof. exact scalar_correct_iff_p. Qed.
+Print Assumptions scalar_correct_iff.
+
+(* ... and where it fails the SQL value is nanosecond 0 (COALESCE(col, 0)) while the documented value is NULL *)
+Theorem null_bound_is_zero : forall rho a,
+  scalar a = true -> bounds_ok rho a = true -> dval rho a = None ->
+  seval rho (sc (EBegin a)) = Some (VTime 0) /\ seval rho (sc (EEnd a)) = Some (VTime 0) /\
+  dval rho (EBegin a) = None /\ dval rho (EEnd a) = None.
+Proof. exact null_bound_is_zero_p. Qed.
+Print Assumptions null_bound_is_zero.
+
+(* ---- the LEGACY interfaces (Model/ExprLegacy.v: normal form + CheckVisitor, PredicateConversionVisitor, daf_relation
+   SQL).  lcompile = None when the interface raises.  "Whenever they accept an expression" they return the rows on which
+   it is true, on the fragment
+       no_null_cmp e       no comparison with NULL                       (outside: legacy_null_comparison_refuted)
+       stride_ok rho e     the member of every strided range (step > 1, more than one element) is NULL or >= 0 on the row
+                                                                         (outside: legacy_stride_negative_refuted)
+   and for dataset searches additionally plain_gov (legacy_governor_sound / legacy_negated_governor_refuted).
+   No bounds_ok premise: what is accepted has no `.begin` / `.end` (legacy_accepts_no_bounds). *)
+Theorem legacy_agrees : forall iskey governed gov known rho e q,
+  typeof e = Some DBool -> env_ok rho e = true -> no_null_cmp e = true -> stride_ok rho e = true ->
+  lcompile iskey governed gov known e = Some q -> tri_of_nv (seval rho q) = deval rho e.
+Proof. exact legacy_agrees_p. Qed.
+Print Assumptions legacy_agrees.
+
+Theorem legacy_select_exact : forall iskey governed gov known (R : Type) (envof : R -> env) e q rows,
+  typeof e = Some DBool -> no_null_cmp e = true -> lcompile iskey governed gov known e = Some q ->
+  (forall r, In r rows -> env_ok (envof r) e = true /\ stride_ok (envof r) e = true) ->
+  forall r, In r (select envof q rows) <-> In r rows /\ deval (envof r) e = TT.
+Proof. exact legacy_select_exact_p. Qed.
+Print Assumptions legacy_select_exact.
+
+(* the same rows as the new interfaces *)
+Theorem legacy_same_rows : forall iskey governed gov known rho e q,
+  typeof e = Some DBool -> env_ok rho e = true -> no_null_cmp e = true -> stride_ok rho e = true ->
+  lcompile iskey governed gov known e = Some q -> exists q', compile e = Some q' /\ keeps rho q' = keeps rho q.
+Proof. exact legacy_same_rows_p. Qed.
+Print Assumptions legacy_same_rows.
+
+(* what the legacy converter accepts: never `%`, `.begin`, `.end`; never a comparison with a unary-minus operand *)
+Theorem legacy_accepts_no_bounds : forall rho e q, lsql e = Some q -> bounds_ok rho e = true.
+Proof. exact lsql_bounds. Qed.
+Print Assumptions legacy_accepts_no_bounds.
+
+Theorem legacy_refuses_mod_and_bounds : forall e q, lsql e = Some q -> uses_mod_or_bound e = false.
+Proof. exact lsql_plain. Qed.
+Print Assumptions legacy_refuses_mod_and_bounds.
+
+Theorem legacy_refuses_negated_operand : forall o a b,
+  ltype b <> Some LNull -> lsql (ECmp o (ENeg a) b) = None /\ lsql (ECmp o b (ENeg a)) = None.
+Proof. exact lsql_neg_cmp. Qed.
+Print Assumptions legacy_refuses_negated_operand.
+
+(* the strided range test of lsst.daf.relation (= the pre-d6d8862 test) is right exactly under the stride guard *)
+Theorem legacy_range_correct : forall rho m x a b s, 1 <= s -> seval rho m = Some (VInt x) ->
+  (s = 1 \/ a = b \/ 0 <= x) ->
+  tri_of_nv (seval rho (range_sql_old m a b s)) = tri_of_bool (in_seqb x a b s).
+Proof. exact range_old_int. Qed.
+Print Assumptions legacy_range_correct.
+
+(* the two legacy-only deviations: witnesses outside the fragment, accepted, documented TRUE, not returned; the new
+   interface returns them (known findings F-C05-legacy-null-comparison, F-C05-legacy-stride-negative-member) *)
+Theorem legacy_null_comparison_refuted :
+  typeof e_lnull = Some DBool /\ env_ok (fun _ => None) e_lnull = true /\ stride_ok (fun _ => None) e_lnull = true /\
+  no_null_cmp e_lnull = false /\ deval (fun _ => None) e_lnull = TT /\
+  match lsql e_lnull with Some q => tri_of_nv (seval (fun _ => None) q) = UU | None => False end /\
+  match compile e_lnull with Some q => keeps (fun _ => None) q = true | None => False end.
+Proof. exact legacy_null_cmp_refuted_p. Qed.
+Print Assumptions legacy_null_comparison_refuted.
+
+Theorem legacy_stride_negative_refuted :
+  typeof e_lstride = Some DBool /\ env_ok (rho_seq (-1)) e_lstride = true /\ no_null_cmp e_lstride = true /\
+  stride_ok (rho_seq (-1)) e_lstride = false /\ deval (rho_seq (-1)) e_lstride = TT /\
+  match lsql e_lstride with Some q => tri_of_nv (seval (rho_seq (-1)) q) = FF | None => False end /\
+  match compile e_lstride with Some q => keeps (rho_seq (-1)) q = true | None => False end.
+Proof. exact legacy_stride_refuted_p. Qed.
+Print Assumptions legacy_stride_negative_refuted.
+
+(* the disjunctive normal form CheckVisitor works on (NOT pushed to the atoms, AND distributed over OR) has the Kleene
+   value of the expression, for every expression and row *)
+Theorem legacy_normal_form_sound : forall rho e ng,
+  dnf_val rho (ldnf ng e) = if ng then tri_not (deval rho e) else deval rho e.
+Proof. exact ldnf_sound_p. Qed.
+Print Assumptions legacy_normal_form_sound.
+
+(* the governor constraint handed to the dataset search (collections lacking every listed value are dropped): sound when
+   all governor atoms are POSITIVE equalities with a literal (plain_gov) ... *)
+Theorem legacy_governor_sound : forall iskey gov rho e vs,
+  plain_gov iskey gov e = true -> lgov iskey gov e = Some vs -> deval rho e = TT ->
+  exists v, In v vs /\ (cmp3 CEq (rho gov) (Some v) = TT \/ cmp3 CEq (Some v) (rho gov) = TT).
+Proof. exact lgov_sound_p. Qed.
+Print Assumptions legacy_governor_sound.
+
+(* ... and violated by a negated one: NOT (instrument = 'Cam') keeps the 'Oth' row, the constraint is {'Cam'}, the RUN
+   holding only 'Oth' datasets is dropped (known finding F-C05-legacy-negated-governor) *)
+Theorem legacy_negated_governor_refuted :
+  let iskey := fun c => N.eqb c 0 in
+  plain_gov iskey 0%N e_notgov = false /\
+  lgov iskey 0%N e_notgov = Some [VStr "Cam"] /\
+  deval rho_oth e_notgov = TT /\
+  match lcompile iskey (fun _ => true) 0%N [VStr "Cam"; VStr "Oth"] e_notgov with
+  | Some q => keeps rho_oth q = true | None => False end /\
+  lprune_row [("rO"%string, [VStr "Oth"]); ("rm"%string, [VStr "Cam"; VStr "Oth"])]
+             (lgov iskey 0%N e_notgov) (Some (VStr "rO")) = false /\
+  lprune_row [("rO"%string, [VStr "Oth"]); ("rm"%string, [VStr "Cam"; VStr "Oth"])]
+             (lgov iskey 0%N e_notgov) (Some (VStr "rm")) = true.
+Proof. exact legacy_negated_governor_refuted_p. Qed.
+Print Assumptions legacy_negated_governor_refuted.
+
 (* ---- non-vacuity: the hypotheses of compile_correct / select_exact are satisfiable by a non-trivial expression
    (strided range on a negative member, NOT of a boolean column, timespan OVERLAPS instant, `= NULL`) on a row that is kept *)
 Example compile_correct_nonvacuous :
@@ -204,3 +318,12 @@ Example in_seqb_examples :
   in_seqb (-3) (-3) 3 2 = true /\ in_seqb 1 (-3) 3 2 = true /\ in_seqb 0 (-3) 3 2 = false /\
   range_seq (-10) (-1) 2 = [-10; -8; -6; -4; -2] /\ range_seq 1 10 3 = [1; 4; 7; 10].
 Proof. vm_compute. repeat split; reflexivity. Qed.
+
+(* non-vacuity of legacy_agrees: accepted (governor given), inside the fragment, strided range on a non-negative member,
+   value list, bound container, NOT OVERLAPS; the row is kept *)
+Example legacy_agrees_nonvacuous :
+  typeof e_lex = Some DBool /\ env_ok rho_lex e_lex = true /\ no_null_cmp e_lex = true /\ stride_ok rho_lex e_lex = true /\
+  deval rho_lex e_lex = TT /\
+  match lcompile (fun c => N.eqb c 0) (fun _ => true) 0%N [VStr "Cam"] e_lex with
+  | Some q => keeps rho_lex q = true | None => False end.
+Proof. exact legacy_agrees_example_p. Qed.
